@@ -54,7 +54,7 @@ def graph_half(tier, v, stats, seed):
                      for t, (n, th) in c03.HELPER_DEPS.items()}}
     if set(cfg["edges"]) != set(c03.EDGES):
         raise ToolError("EDGE_DEPS does not describe every edge kind")
-    cfgp = os.path.join(vlib.BUILD, "reach-cfg.json")
+    cfgp = os.path.join(vlib.TMP, "reach-cfg.json")
     json.dump(cfg, open(cfgp, "w"))
     st = {"states": 0, "transitions": 0}
     total = 0
@@ -78,7 +78,7 @@ def graph_half(tier, v, stats, seed):
                 recs.append({"edge": case["edge"], "d_et": d_et, "r_et": r_et, "dir": dirrec, "changed": [path_cs(p, g) for p in changed],
                              "removed": [path_cs(p, g) for p in removed], "reported": reported, "ok": res[u.name] == "Ok"})
                 meta.append((case, u, changed, removed, res[u.name]))
-            tp = os.path.join(vlib.BUILD, "reach-trace.ndjson")
+            tp = os.path.join(vlib.TMP, "reach-trace.ndjson")
             vlib.write_ndjson(tp, recs)
             a = vlib.run_tlc("Trace_Reach", "Trace_Reach.cfg", workers=8, env={"VERIF_TRACE": tp, "VERIF_CFG": cfgp}, timeout=1800, tags=("BAD",), metatag="c11g")
             vlib.tlc_must_succeed(a, "Trace_Reach")
